@@ -2,7 +2,13 @@
 
 package verifharness
 
-import "testing"
+import (
+	"context"
+	"testing"
+	"testing/synctest"
+
+	goat "github.com/avos-io/goat"
+)
 
 // TestC07: for every base trace a cancellation after EVERY prefix of its action sequence.
 func TestC07(t *testing.T) {
@@ -95,4 +101,49 @@ func TestC06(t *testing.T) {
 		}
 		run("c06-e2e", sc)
 	}
+	// the witness of C06_client_refuted, replayed on the real client (known finding)
+	if want(idx) {
+		em.Marker("begin", idx)
+		ws := replayCloseAfterAbortReset(t)
+		em.Emit(Rec{Idx: idx, Kind: "c06-client", Desc: "replay of C06_client_refuted: CloseSend while the loop of an aborted stream is between its reset write and its unregister",
+			Tags: []string{"c06", "family:replay", "sig:close-after-abort-reset"}, Coq: cwCaseCoq("CwRun", cwScenario{Mode: "client"}, nil, ws, nil, nil)})
+		em.Marker("end", idx)
+	}
+	idx++
+}
+
+// replayCloseAfterAbortReset replays the witness of C06_client_refuted on the real client: the peer's first
+// response carries undecodable metadata; the stream loop writes its reset and is held inside that Write (a slow
+// transport) before it unregisters and cancels the stream context; the user's CloseSend writes its trailer.
+func replayCloseAfterAbortReset(t *testing.T) (c2s []*Rpc) {
+	bubble(t, func(t *testing.T) {
+		ep := NewEndpoint("client")
+		ep.CheckCtx = true
+		gate := make(chan struct{})
+		held := false
+		ep.OnWrite = func(r *Rpc) {
+			if r.GetReset_() != nil && !held {
+				held = true
+				<-gate
+			}
+		}
+		cc := goat.NewClientConn(ep, "src", "dst")
+		cs, err := cc.NewStream(context.Background(), descBidi, "/verif.Echo/Bidi")
+		if err != nil {
+			t.Fatal(err)
+		}
+		id := ep.WrittenCopy()[0].Id
+		ep.Deliver((&EnvSpec{Call: 0, Hdr: "bad", Body: i64(5), Trl: "none"}).build(id, "/verif.Echo/Bidi"))
+		synctest.Wait()
+		done := make(chan error, 1)
+		go func() { done <- cs.CloseSend() }()
+		synctest.Wait()
+		close(gate)
+		synctest.Wait()
+		<-done
+		c2s = ep.WrittenCopy()
+		ep.FailRead(errInjected)
+		synctest.Wait()
+	})
+	return c2s
 }
